@@ -30,6 +30,9 @@ pub struct Gen<'a> {
     pub rng: &'a mut Rng,
     pub tier: Tier,
     pub names: Vec<&'static str>,
+    /// one tree in `spine_odds` is a deep spine (depth up to 13: walkdir keeps at most 10 directory
+    /// handles open and switches the representation of the older ones beyond that)
+    pub spine_odds: usize,
 }
 
 fn esc(name: &str) -> String {
@@ -49,7 +52,12 @@ impl<'a> Gen<'a> {
                 names.push(n);
             }
         }
-        Gen { rng, tier, names }
+        Gen {
+            rng,
+            tier,
+            names,
+            spine_odds: 50,
+        }
     }
 
     // ------------------------------------------------------------------ trees
@@ -60,7 +68,7 @@ impl<'a> Gen<'a> {
             Tier::Thorough => 40,
         };
         let n = if self.rng.chance(1, 2) { self.rng.range(2, 8) } else { self.rng.range(6, cap) };
-        let spine = self.rng.chance(1, 50);
+        let spine = self.rng.chance(1, self.spine_odds);
         let max_depth = if spine { 13 } else { self.rng.range(2, 6) };
         let mut tree: Vec<Node> = Vec::new();
         let mut dirs: Vec<String> = vec![String::new()];
